@@ -96,7 +96,10 @@ def scan_assumptions(lines):
         if m and not l.text.strip().startswith("//") and "// split: proved in" not in l.text:
             o = l.origin
             where = f"{o[1]}:{o[2]}" if o[0] in ("repo", "spec") else f"generated:{o[1]}"
-            found.append(f"{m.group(1).strip(' (')} @ {where}: {l.text.strip()[:160]}")
+            shown = l.text.strip()
+            if shown.startswith("#[") and shown.endswith("]") and i + 1 < len(lines):
+                shown += " " + lines[i + 1].text.strip()       # (an attribute line: name what it is attached to)
+            found.append(f"{m.group(1).strip(' (')} @ {where}: {shown[:200]}")
     return found
 
 
